@@ -8,7 +8,10 @@ package main
 import (
 	"bytes"
 	"context"
+	stdjson "encoding/json"
 	"fmt"
+	"strconv"
+	"strings"
 
 	gojson "github.com/goccy/go-json"
 )
@@ -128,3 +131,223 @@ func c12MarshalerWindows(o *Out) {
 }
 
 type c12TextWindowKey string
+
+// ---- audit A8: the history of the encode side with more than one kind of value ----
+// Values with strings that need escaping, byte slices, raw messages, numbers, nested maps and marshal callbacks that call
+// the library again and keep what they got; result lengths on both sides of the initial size of the pooled buffer (1024)
+// and of its doublings; the remaining option combinations and the Encoder in between.  Every result (also those of
+// the inner calls) is kept and compared with a copy after every later call; results are overwritten by the caller.
+
+type c12Nest struct {
+	V    interface{}
+	Mode int
+}
+
+var c12NestHeld []c12Held
+
+func (n c12Nest) MarshalJSON() ([]byte, error) {
+	var b []byte
+	var err error
+	switch n.Mode % 4 {
+	case 0:
+		b, err = gojson.Marshal(n.V)
+	case 1:
+		b, err = gojson.MarshalNoEscape(n.V)
+	case 2:
+		b, err = gojson.MarshalContext(context.Background(), n.V)
+	default:
+		b, err = gojson.MarshalWithOption(n.V, gojson.DisableHTMLEscape()) // the outer call escapes what it takes over
+	}
+	if err == nil && len(c12NestHeld) < 64 {
+		c12NestHeld = append(c12NestHeld, c12Held{b, append([]byte(nil), b...), "inner call of a marshal callback"})
+	}
+	return b, err
+}
+
+type c12Rec struct {
+	ID   int               `json:"id"`
+	S    string            `json:"s"`
+	B    []byte            `json:"b"`
+	R    gojson.RawMessage `json:"r"`
+	N    gojson.Number     `json:"n"`
+	M    map[string]interface{}
+	L    []c12Sub
+	W    interface{} `json:"w"`
+	Next *c12Rec     `json:"next,omitempty"`
+}
+
+func c12EncodeKinds(o *Out) {
+	r := o.rng
+	n := 500
+	if o.tier == "thorough" {
+		n = 8000
+	}
+	var held []c12Held
+	apis := []string{"Marshal", "MarshalNoEscape", "MarshalContext", "MarshalIndent", "MarshalWithOption(DisableHTMLEscape)", "MarshalWithOption(DisableNormalizeUTF8)",
+		"MarshalWithOption(Colorize)", "MarshalIndentWithOption(UnorderedMap)", "MarshalContext(UnorderedMap)"}
+	check := func(after string) {
+		all := append(append([]c12Held(nil), held...), c12NestHeld...)
+		for j := range all {
+			if !bytes.Equal(all[j].got, all[j].copy) {
+				o.violation("C12", "a slice returned by Marshal was changed by a later library call", map[string]string{
+					"result_of": all[j].desc, "changed_after": after, "first_difference": fmt.Sprint(firstDiff(all[j].got, all[j].copy)),
+					"now": clip(string(all[j].got)), "was": clip(string(all[j].copy))})
+				copy(all[j].copy, all[j].got)
+			}
+		}
+	}
+	for i := 0; i < n; i++ {
+		// the length of the result is steered by the length of one string: around 1024 and its doublings, and anywhere
+		target := []int{0, 3, 40, 1000 + r.Intn(50), 2030 + r.Intn(40), 4080 + r.Intn(30), r.Intn(3000), 9000, 66000}[r.Intn(9)]
+		s := strings.Repeat(string(rune('a'+i%26)), target)
+		if target > 0 && r.Intn(3) == 0 {
+			s = s[:target/2] + []string{"<&>", "é", " ", "\"\\", "\xff", "😀"}[r.Intn(6)] + s[target/2:]
+		}
+		var v interface{}
+		kind := r.Intn(6)
+		if r.Intn(5) == 0 {
+			// a plain string: the length of the result is the length of the string plus two, so the boundary is hit exactly
+			kind = 5
+			s = strings.Repeat("b", []int{1024, 2048, 4096, 8192}[r.Intn(4)]-2+r.Intn(7)-3)
+		}
+		switch kind {
+		case 0:
+			v = &c12Rec{ID: i, S: s, B: []byte(s[:len(s)/4]), R: gojson.RawMessage(`{"raw": [1, "` + string(rune('a'+i%26)) + `"]}`), N: gojson.Number(strconv.Itoa(i) + ".5")}
+		case 1:
+			v = c12Rec{ID: i, M: map[string]interface{}{"s": s, "l": []interface{}{i, "x", nil}, "m": map[string]interface{}{"k": s[:len(s)/8]}}, L: []c12Sub{{A: i, B: s[:len(s)/2]}, {A: -i}}}
+		case 2:
+			v = []interface{}{c12Nest{V: map[string]interface{}{"inner": s, "i": i}, Mode: i}, i, c12Nest{V: []string{s[:len(s)/3], "<>"}, Mode: i + 1}}
+		case 3:
+			v = &c12Rec{ID: i, W: c12Nest{V: &c12Rec{ID: -i, S: s}, Mode: i}, Next: &c12Rec{ID: i + 1, W: c12Window{[]byte(`{"w": "` + string(rune('a'+i%26)) + `"}`)}}}
+		case 4:
+			v = map[string][]byte{"a": []byte(s), "b": nil, "c": {}}
+		default:
+			v = s
+		}
+		api := apis[r.Intn(len(apis))]
+		o.hist("encode_kinds_api", api)
+		o.hist("encode_kinds_value", []string{"struct pointer", "struct with maps", "callbacks that call the library", "callbacks in a recursive struct", "map of byte slices", "string"}[kind])
+		o.current(map[string]string{"property": "C12", "what": "encode kinds", "api": api, "kind": strconv.Itoa(kind), "target": strconv.Itoa(target), "call": strconv.Itoa(i)})
+		var got, want []byte
+		var err error
+		exact := true
+		switch api {
+		case "Marshal":
+			got, err = gojson.Marshal(v)
+			want, _ = stdjson.Marshal(v)
+		case "MarshalNoEscape":
+			got, err = gojson.MarshalNoEscape(v)
+			want, _ = stdjson.Marshal(v)
+		case "MarshalContext":
+			got, err = gojson.MarshalContext(context.Background(), v)
+			want, _ = stdjson.Marshal(v)
+		case "MarshalIndent":
+			got, err = gojson.MarshalIndent(v, "", " ")
+			want, _ = stdjson.MarshalIndent(v, "", " ")
+		case "MarshalWithOption(DisableHTMLEscape)":
+			got, err = gojson.MarshalWithOption(v, gojson.DisableHTMLEscape())
+			var sb bytes.Buffer
+			e := stdjson.NewEncoder(&sb)
+			e.SetEscapeHTML(false)
+			e.Encode(v)
+			want = bytes.TrimSuffix(sb.Bytes(), []byte("\n"))
+		case "MarshalWithOption(DisableNormalizeUTF8)":
+			got, err = gojson.MarshalWithOption(v, gojson.DisableNormalizeUTF8())
+			want, _ = stdjson.Marshal(v)
+			exact = false // U+2028 and invalid bytes are written as they are: the value is compared, not the text
+		case "MarshalWithOption(Colorize)":
+			got, err = gojson.MarshalWithOption(v, gojson.Colorize(c13Scheme()))
+			want, _ = stdjson.Marshal(v)
+			exact = false
+		case "MarshalIndentWithOption(UnorderedMap)":
+			got, err = gojson.MarshalIndentWithOption(v, "", " ", gojson.UnorderedMap())
+			want, _ = stdjson.Marshal(v)
+			exact = false
+		default:
+			got, err = gojson.MarshalContext(context.Background(), v, gojson.UnorderedMap())
+			want, _ = stdjson.Marshal(v)
+			exact = false
+		}
+		o.count("encode_kinds_calls", 1)
+		if err != nil {
+			o.violation("C12", "Marshal failed", map[string]string{"api": api, "err": err.Error(), "kind": strconv.Itoa(kind)})
+			continue
+		}
+		o.hist("encode_kinds_result_length", func() string {
+			l := len(got)
+			for _, b := range []int{1024, 2048, 4096, 8192} {
+				if l >= b-8 && l <= b+8 {
+					return fmt.Sprintf("within 8 of %d", b)
+				}
+			}
+			switch {
+			case l < 1024:
+				return "below 1024"
+			case l < 8192:
+				return "1024..8192"
+			}
+			return "above 8192"
+		}())
+		ok := true
+		if exact {
+			ok = tgSameJSON(got, want)
+		} else {
+			cmp := got
+			if api == "MarshalWithOption(Colorize)" {
+				cmp = c13StripMarkers(got)
+			}
+			var x, y interface{}
+			if stdjson.Unmarshal(cmp, &x) != nil || stdjson.Unmarshal(want, &y) != nil {
+				ok = false
+			} else {
+				a, _ := stdjson.Marshal(x)
+				b, _ := stdjson.Marshal(y)
+				ok = bytes.Equal(a, b)
+			}
+		}
+		if !ok {
+			o.violation("C12", "a Marshal result is wrong after earlier results were overwritten by the caller or buffers were recycled", map[string]string{
+				"api": api, "call": strconv.Itoa(i), "kind": strconv.Itoa(kind), "first_difference": strconv.Itoa(firstDiff(got, want)),
+				"got": around(got, firstDiff(got, want)), "want": around(want, firstDiff(got, want))})
+		}
+		held = append(held, c12Held{got, append([]byte(nil), got...), fmt.Sprintf("%s call %d kind %d length %d", api, i, kind, len(got))})
+		switch r.Intn(6) {
+		case 0:
+			c12Churn(r)
+		case 1:
+			var b bytes.Buffer
+			e := gojson.NewEncoder(&b)
+			if r.Intn(2) == 0 {
+				e.SetIndent(">", " ")
+			}
+			e.Encode(v)
+			e.Encode(i)
+		case 2:
+			gojson.Marshal(make(chan int)) // a call that fails gives its context back, too
+			gojson.Marshal(c12Nest{V: func() {}})
+		}
+		check(fmt.Sprintf("%s call %d kind %d", api, i, kind))
+		if r.Intn(3) == 0 {
+			all := [][]c12Held{held, c12NestHeld}[r.Intn(2)]
+			if len(all) > 0 {
+				h := &all[r.Intn(len(all))]
+				for j := range h.got {
+					h.got[j] = 'Z'
+				}
+				copy(h.copy, h.got)
+				full := h.got[:cap(h.got)]
+				for j := len(h.got); j < len(full); j++ {
+					full[j] = 'Y'
+				}
+				o.count("encode_kinds_caller_overwrites", 1)
+			}
+		}
+		if len(held) > 40 {
+			held = held[len(held)-25:]
+		}
+		if len(c12NestHeld) > 40 {
+			c12NestHeld = c12NestHeld[len(c12NestHeld)-20:]
+		}
+	}
+	o.count("encode_kinds_inner_results_held", int64(len(c12NestHeld)))
+}
